@@ -619,8 +619,8 @@ class Engine:
                 rw = parse_cbmc_json(outw)
                 w = {"ok": False, "secs": round(secs, 2)}
                 wf = [f for f in rw["failed"] if "WITNESS main" in (f["description"] or "")]
-                if to:
-                    w["reason"] = "timeout"
+                if to or rw["status"] == "error":
+                    w["reason"] = "timeout" if to else "witness run ended with an error (memory limit)"
                     w["not_run_to_completion"] = True
                 elif wf:
                     leaves = trace_inputs(wf[0].get("trace"))
